@@ -599,7 +599,7 @@ def c17_8(R):
         R.fail([sc.name, "shape"], "state_is_closed no longer asks the state with the configured wait_for_last_ack", where=sc.where(), instance="state_is_closed")
 
 
-@rule("C17.9", ["C17", "C09", "C04", "C01"], ["E4", "E7"], "a connection starts from the sequence state the handshake fixed",
+@rule("C17.9", ["C17", "C09", "C04", "C01", "C05"], ["E4", "E7"], "a connection starts from the sequence state the handshake fixed",
       "StreamArgs::new_outgoing (from the SYN-ACK): seq_nr = ack.ack_nr + 1, last_sent_seq_nr = ack.ack_nr, last_consumed_remote_seq_nr = last_sent_ack_nr = ack.seq_nr - 1, state = Established, "
       "remote_window = ack.wnd_size. StreamArgs::new_incoming (from the SYN): seq_nr = the chosen number, last_sent_seq_nr = that - 1, last_consumed_remote_seq_nr = last_sent_ack_nr = syn.seq_nr, "
       "remote_window = 0, state = SynReceived. Everything is relative to the received header (no absolute numbers): an off-by-one here shifts every later acknowledgement / sequence number.")
@@ -637,9 +637,27 @@ def c17_9(R):
                 R.ok("initial-sequence-state", "%s.%s" % (fn.split("::")[-1], fld), desc)
             else:
                 R.fail([fn, "initial", fld, desc.replace("|", "/")], "%s initialises %s as %s, expected %s" % (fn.split("::")[-1], fld, desc, exp if isinstance(exp, str) else "%s%+d" % exp), where=s.where(), instance="initial-sequence-state")
+    # ... and what the constructors are handed IS the received header: the header field of the message (or of the parked SYN) that arrived, not a
+    # local copy that was edited on the way (a "default" window substituted for the advertised one, a patched sequence number)
+    n = 0
+    for fn in want:
+        for cb, ct in call_sites_of(R.facts, fn):
+            if "::tests" in cb.name or cb.name.startswith("test_util"):
+                continue
+            hdr = [a for a in ct.args if "UtpHeader" in ((cb.local_ty(a.place.local) if a.place is not None and a.place.is_local else "") or "")]
+            for a in hdr:
+                n += 1
+                t = trace(cb, a)
+                if t.kind in ("param", "upvar") and t.fields and t.fields[-1] in ("UtpMessage.header", "Syn.header"):
+                    R.ok("constructor-gets-the-received-header", "%s <- %s" % (fn.split("::")[-1], owner_fn(cb).split("::")[-1]), t.describe())
+                else:
+                    R.fail([owner_fn(cb), fn.split("::")[-1] + "-header-arg", t.describe() if t.kind != "multi" else "edited-copy"],
+                           "%s is not given the header that arrived but %s: what the peer advertised in the handshake (window, numbers, ids) can be replaced on the way into the connection"
+                           % (fn.split("::")[-1], "a local copy that is written to before the call" if t.kind == "multi" else t.describe()), where=ct.where(), instance="constructor-gets-the-received-header")
+    R.floor("call sites of the StreamArgs constructors", n, 2)
 
 
-@rule("C17.10", ["C17", "C09", "C04", "C05", "C14"], ["E4", "E7"], "the connection object is wired from the handshake state and the socket's options",
+@rule("C17.10", ["C17", "C09", "C04", "C05", "C14", "C07"], ["E4", "E7"], "the connection object is wired from the handshake state and the socket's options",
       "UtpStreamStarter::new builds VirtualSocket with state, seq_nr, last_sent_seq_nr, last_consumed_remote_seq_nr, last_sent_ack_nr, conn_id_send, last_remote_timestamp <- the same-named StreamArgs "
       "field, last_remote_window <- args.remote_window (also given to the congestion controller), user_tx_segments = Segments::new(args.seq_nr), rto_retransmissions = 0, consumed_but_unacked_bytes = 0; "
       "SegmentSizes::new gets is_ipv4 from the remote address and link_mtu from the socket's options; the RX / TX buffers get vsock_rx_bufsize / vsock_tx_bufsize_bytes_initial; "
@@ -667,6 +685,29 @@ def c17_10(R):
             R.ok("vsock-wiring", fld, "= 0")
         else:
             R.fail([sn.name, "vsock-wiring", fld, "not-zero"], "VirtualSocket.%s does not start at 0" % fld, where=s.where(), instance="vsock-wiring")
+    # last_sent_window: "what the peer has been told" before anything was sent - our own receive buffer for a connection that is already established
+    # (so that no window update goes out unprovoked), 0 otherwise; never the PEER's window, which is a number about the other direction
+    if "last_sent_window" in names:
+        n += 1
+        t = trace(sn, s.rv.ops[names.index("last_sent_window")])
+        srcs = set()
+        consts = set()
+        if t.kind == "multi":
+            for d in t.root[3]:
+                if isinstance(d, Stmt) and d.rv.ops:
+                    o = d.rv.ops[0]
+                    if o.kind == "const":
+                        consts.add(o.scalar)
+                    else:
+                        srcs.add(trace(sn, o).last_field)
+        else:
+            srcs.add(t.last_field or t.describe())
+        if srcs == {"ValidatedSocketOpts.vsock_rx_bufsize"} and consts <= {0}:
+            R.ok("vsock-wiring", "last_sent_window", "<- opts.vsock_rx_bufsize when Established, else 0")
+        else:
+            R.fail([sn.name, "vsock-wiring", "last_sent_window", "from=" + ",".join(sorted(str(x) for x in srcs))], "VirtualSocket.last_sent_window does not start from our own receive buffer size (or 0): "
+                   "initialised from %s, the first poll compares what we 'told' the peer with the real window and emits an unsolicited window update (or suppresses a due one)" % ",".join(sorted(str(x) for x in srcs)),
+                   where=s.where(), instance="vsock-wiring")
     t = trace(sn, s.rv.ops[names.index("user_tx_segments")])
     n += 1
     if t.kind == "call" and call_matches(t.root[1], ("stream_tx_segments::Segments::new",)) and trace(sn, t.root[1].args[0]).last_field == "StreamArgs.seq_nr":
